@@ -48,8 +48,12 @@ def cases(draw, tier="quick"):
         return out
     vars1, vars2 = sel(f1), sel(f2)
     neg = draw(st.sampled_from([None] * 5 + ["levels", "removed", "split", "header_order"]))
+    nlev = spec["mesh"]["nlev"]
+    code = st.lists(st.integers(0, 7), max_size=4)
+    # task start / completion orders of the per-file workers of each level (empty = submission order)
+    sched = dict(exec=[draw(code) for _ in range(nlev)], comp=[draw(code) for _ in range(nlev)], lazy=draw(st.booleans()))
     return dict(spec=spec, fields2=f2, layout2=layout2, payload2=payload2, vars1=vars1, vars2=vars2, neg=neg,
-                same_layout=draw(st.sampled_from([False, False, False, True])))
+                same_layout=draw(st.sampled_from([False, False, False, True])), sched=sched)
 
 
 def compact(case):
@@ -139,6 +143,8 @@ def check_case(case, ctx):
                    or sel1 != p1.fields or sel2 != p2.fields)
     snaps = (snapshot("in1"), snapshot("in2"))
     v = []
+    from .. import pools
+    sched = pools.set_schedule(case.get("sched"))
     try:
         pck1 = qcall(PlotfileCooker, "in1")
         pck2 = qcall(PlotfileCooker, "in2")
@@ -146,6 +152,10 @@ def check_case(case, ctx):
         raised = None
     except Exception as e:
         raised = e
+    finally:
+        pools.set_schedule(None)
+    if sched.nonidentity_calls():
+        ctx.label("schedule:non-identity")
     for name, s in zip(("in1", "in2"), snaps):
         d = snapshot_diff(s, snapshot(name))
         if d:
